@@ -76,12 +76,13 @@ def PlainName (s : String) : Prop := s ≠ "" ∧ s.contains ',' = false ∧ spl
 instance (s : String) : Decidable (PlainName s) := by unfold PlainName; exact inferInstance
 
 /-- the axis that `a.broadcast(target)` gives to the target axis `t`: `a`'s own axis of that name
-when it has one - unless that one has a single label and the target has not, then the target's;
-the target's axis when `a` has no dimension of that name. -/
+when it has one - unless that one has a single label and the target has not, then a fresh axis with the
+target's name and labels (`t.bare`: the target's metadata is NOT taken over); such a fresh axis too when `a`
+has no dimension of that name. -/
 def bcastAxis {α} (a : DimArray α) (t : Axis) : Axis :=
   match a.axes.find? (·.name == t.name) with
-  | some ax => if ax.size == 1 && t.size != 1 then t else ax
-  | none => t
+  | some ax => if ax.size == 1 && t.size != 1 then t.bare else ax
+  | none => t.bare
 
 /-- Plain arrays: no grouped (`MultiAxis`) axis. -/
 def PlainAxes (axes : List Axis) : Prop := ∀ ax ∈ axes, ax.members = []
